@@ -68,6 +68,7 @@ pub fn strategy() -> BoxedStrategy<Req> {
         }),
         3 => scalar_nonzero().prop_map(|a| req1("sc.invert", a.to_vec())),
         2 => vec(scalar_nonzero(), 0..=32).prop_map(|v| Req::new("sc.batch_invert", v.iter().map(|x| x.to_vec()).collect())),
+        1 => vec(scalar_nonzero(), 33..300).prop_map(|v| Req::new("sc.batch_invert", v.iter().map(|x| x.to_vec()).collect())),
         // duplicates / 1 / l-1 in a batch
         1 => (scalar_nonzero(), 1usize..8).prop_map(|(a, n)| { let mut v = vec![a.to_vec(); n]; v.push(Sc::ONE.to_bytes().to_vec()); v.push(Sc::ONE.neg().to_bytes().to_vec()); Req::new("sc.batch_invert", v) }),
         1 => pair().prop_map(|(a, b)| Req::new("sc.eq", vec![a.to_vec(), b.to_vec()])),
